@@ -48,7 +48,39 @@ func genCli() {
 		return true
 	})
 	san := raw == 0 && wrapped >= 3
-	writeGen("Cli", fmt.Sprintf("def cliSanitizes : Bool := %v\ndef cliMaxDepth : Nat := %d\n", san, md))
+	// inspectFile: the path in front of the report goes through the same wrapper
+	pathSan := false
+	if inf := findFunc(f, "inspectFile"); inf != nil && wrapper != "" {
+		rawPath, wrappedPath := 0, 0
+		ast.Inspect(inf.Body, func(n ast.Node) bool {
+			c, ok := n.(*ast.CallExpr)
+			if !ok {
+				return true
+			}
+			se, ok := c.Fun.(*ast.SelectorExpr)
+			if !ok || se.Sel.Name != "Printf" && se.Sel.Name != "Print" && se.Sel.Name != "Println" {
+				return true
+			}
+			if id, ok := se.X.(*ast.Ident); !ok || id.Name != "fmt" {
+				return true
+			}
+			for _, a := range c.Args {
+				if sel, ok := a.(*ast.SelectorExpr); ok && sel.Sel.Name == "Path" {
+					rawPath++
+				} else if id, ok := a.(*ast.Ident); ok && id.Name == "filePath" {
+					rawPath++
+				} else if wc, ok := a.(*ast.CallExpr); ok && len(wc.Args) == 1 {
+					if fn, ok := wc.Fun.(*ast.Ident); ok && fn.Name == wrapper {
+						wrappedPath++
+					}
+				}
+			}
+			return true
+		})
+		pathSan = rawPath == 0 && wrappedPath >= 1
+	}
+	writeGen("Cli", fmt.Sprintf("def cliSanitizes : Bool := %v\ndef cliSanitizesPath : Bool := %v\ndef cliMaxDepth : Nat := %d\n", san, pathSan, md))
+	facts["cli.pathSanitized"] = pathSan
 	facts["cli.printInfo.sanitizes"] = san
 	facts["cli.printInfo.wrapper"] = wrapper
 	facts["cli.maxDepth"] = md
